@@ -44,6 +44,8 @@ func boardtrace(args []string) {
 			f.Board = true
 		case "prev":
 			f.Prev = true
+		case "derived":
+			f.Deriv = true
 		}
 	}
 	w := out.Create(*path)
@@ -227,6 +229,9 @@ func tree(g *gen.G, pos *board.Position, turn board.Color, np, fm, depth int) {
 	if g.F.Views {
 		g.ViewsEvent(pos, turn, np, fm)
 	}
+	if g.F.Deriv {
+		g.DerivedEvent(pos, turn)
+	}
 	if depth == 0 {
 		return
 	}
@@ -290,5 +295,8 @@ func synthetic(g *gen.G) {
 	}
 	if g.F.Views {
 		g.ViewsEvent(pos, turn, g.R.Intn(150), 1+g.R.Intn(200))
+	}
+	if g.F.Deriv {
+		g.DerivedEvent(pos, turn)
 	}
 }
